@@ -23,12 +23,16 @@ var (
 	realSock string
 )
 
+// tmpDirs: directories of this process (sockets, the fake PIV tool), removed when it ends
+var tmpDirs []string
+
 func realUnderlying() string {
 	realOnce.Do(func() {
 		d, err := os.MkdirTemp("", "verifserve")
 		if err != nil {
 			panic(err)
 		}
+		tmpDirs = append(tmpDirs, d)
 		realSock = filepath.Join(d, "a.sock")
 		l, err := net.Listen("unix", realSock)
 		if err != nil {
